@@ -1,9 +1,446 @@
 //! C10 harness, cluster build: the same engine as hcore's `registry` binary, compiled against
-//! ractor with the `cluster` feature (pid registry, remote proxies).
+//! ractor with the `cluster` feature (pid registry, remote proxies) — plus, `--mode pid`, the engine
+//! `pidmon` for the pid table and its lifecycle monitors (`pid_registry::{monitor, demonitor,
+//! register_pid, unregister_pid, get_all_pids, where_is_pid}`), see `mod pidmon` below and
+//! lean/Driver/PidRegistry.lean.
 #[path = "../../../hcore/src/bin/registry.rs"]
 #[allow(dead_code)]
 mod core;
 
 fn main() {
-    core::main_with(true)
+    let args = hutil::Args::parse();
+    if args.str("mode", "lts") == "pid" {
+        pidmon::main(args)
+    } else {
+        core::main_with(true)
+    }
+}
+
+/// Engine `pidmon` (E-LTS, API level): paused current_thread runtime, run to quiescence between ops.
+/// Every actor of a case is a *logging* actor: whatever `PidLifecycleEvent` it gets to handle is
+/// recorded with the recipient; any of them (local, remote-id proxy, held in `post_stop`, dead) can be
+/// subscribed with `pid_registry::monitor`. After every op the harness reads `get_all_pids()`, the
+/// listener map (`verif_pid_listeners`), every actor's status, `where_is_pid` of every actor, and the
+/// events handled since the previous op.
+///
+///   `case`                         tear down, spawn the hidden supervisor (actor 900)     → `ok`
+///   `spawn k ok|fail plain|instant|linked`   a LOCAL actor (pre_start fails on request)   → `ok`|`fail`
+///   `spawnremote k`                `ActorRuntime::spawn_linked_remote(Remote id, sup 900)` → `ok`
+///   `exit k stop|kill|drain`       whole exit (an actor held in post_stop is released)    → `ok`
+///   `exitbegin k` / `exitend k`    exit held in `post_stop` (status Stopping) / released  → `ok`
+///   `monitor k` / `demonitor k`    `pid_registry::monitor(cell)` / `demonitor(id)`        → `ok`
+///   `getall`                       `get_all_pids()`                                       → `pids …`
+///   `whereis k`                    `where_is_pid(id)`                                     → `found`|`none`
+///
+/// impl line: `<ans> | pids=… mons=… actors=k:L|R:phase,… found=… ev=to:S|T:who,…`
+mod pidmon {
+    use std::collections::BTreeMap;
+    use std::sync::atomic::{AtomicBool, Ordering};
+    use std::sync::{Arc, Mutex};
+    use std::time::Duration;
+
+    use hutil::{Args, Log, Rng, Stats};
+    use ractor::registry::{self, pid_registry, PidLifecycleEvent};
+    use ractor::{Actor, ActorCell, ActorId, ActorProcessingErr, ActorRef, ActorStatus, SupervisionEvent};
+
+    const SUP: u64 = 900;
+
+    type EvLog = Arc<Mutex<Vec<(bool, ActorId)>>>;
+
+    /// The logging test actor.
+    struct LA {
+        fail: bool,
+        slot: Arc<Mutex<Option<ActorCell>>>,
+        hold: Arc<AtomicBool>,
+        gate: Arc<tokio::sync::Notify>,
+        log: EvLog,
+    }
+
+    impl Actor for LA {
+        type Msg = ();
+        type State = ();
+        type Arguments = ();
+
+        async fn pre_start(&self, myself: ActorRef<()>, _: ()) -> Result<(), ActorProcessingErr> {
+            *self.slot.lock().unwrap() = Some(myself.get_cell());
+            if self.fail {
+                Err("refused".into())
+            } else {
+                Ok(())
+            }
+        }
+
+        async fn post_stop(&self, _: ActorRef<()>, _: &mut ()) -> Result<(), ActorProcessingErr> {
+            if self.hold.load(Ordering::SeqCst) {
+                self.gate.notified().await;
+            }
+            Ok(())
+        }
+
+        async fn handle_supervisor_evt(&self, _: ActorRef<()>, ev: SupervisionEvent, _: &mut ()) -> Result<(), ActorProcessingErr> {
+            if let SupervisionEvent::PidLifecycleEvent(e) = ev {
+                match e {
+                    PidLifecycleEvent::Spawn(c) => self.log.lock().unwrap().push((true, c.get_id())),
+                    PidLifecycleEvent::Terminate(c) => self.log.lock().unwrap().push((false, c.get_id())),
+                }
+            }
+            Ok(())
+        }
+    }
+
+    #[derive(Clone)]
+    struct Rec {
+        cell: ActorCell,
+        remote: bool,
+        hold: Arc<AtomicBool>,
+        gate: Arc<tokio::sync::Notify>,
+        log: EvLog,
+    }
+
+    #[derive(Default)]
+    struct World {
+        recs: BTreeMap<u64, Rec>,
+    }
+
+    fn phase(c: &ActorCell) -> u64 {
+        let s = c.get_status();
+        if s < ActorStatus::Stopping {
+            0
+        } else if s == ActorStatus::Stopping {
+            1
+        } else {
+            2
+        }
+    }
+
+    impl World {
+        fn k_of_id(&self, id: ActorId) -> u64 {
+            self.recs.iter().find(|(_, r)| r.cell.get_id() == id).map(|(k, _)| *k).unwrap_or(999)
+        }
+
+        fn view(&self) -> String {
+            let mut pids: Vec<u64> = registry::get_all_pids().iter().map(|c| self.k_of_id(c.get_id())).collect();
+            pids.sort();
+            let mut mons: Vec<u64> = pid_registry::verif_pid_listeners().into_iter().map(|id| self.k_of_id(id)).collect();
+            mons.sort();
+            let acts = if self.recs.is_empty() {
+                "-".to_string()
+            } else {
+                self.recs
+                    .iter()
+                    .map(|(k, r)| format!("{k}:{}:{}", if r.remote { "R" } else { "L" }, phase(&r.cell)))
+                    .collect::<Vec<_>>()
+                    .join(",")
+            };
+            let mut found: Vec<u64> = Vec::new();
+            for (k, r) in &self.recs {
+                if let Some(c) = registry::where_is_pid(r.cell.get_id()) {
+                    // a foreign cell under this id would show as 998
+                    found.push(if c.get_id() == r.cell.get_id() { *k } else { 998 });
+                }
+            }
+            let mut evs: Vec<String> = Vec::new();
+            for (k, r) in &self.recs {
+                for (spawn, id) in std::mem::take(&mut *r.log.lock().unwrap()) {
+                    evs.push(format!("{k}:{}:{}", if spawn { "S" } else { "T" }, self.k_of_id(id)));
+                }
+            }
+            let ev = if evs.is_empty() { "-".to_string() } else { evs.join(",") };
+            format!(
+                "pids={} mons={} actors={acts} found={} ev={ev}",
+                hutil::show_u64s(&pids),
+                hutil::show_u64s(&mons),
+                hutil::show_u64s(&found)
+            )
+        }
+    }
+
+    async fn quiesce() {
+        tokio::time::sleep(Duration::from_millis(1)).await;
+    }
+
+    fn new_la(fail: bool) -> (LA, Arc<Mutex<Option<ActorCell>>>, Arc<AtomicBool>, Arc<tokio::sync::Notify>, EvLog) {
+        let slot = Arc::new(Mutex::new(None));
+        let hold = Arc::new(AtomicBool::new(false));
+        let gate = Arc::new(tokio::sync::Notify::new());
+        let log: EvLog = Arc::new(Mutex::new(Vec::new()));
+        (LA { fail, slot: slot.clone(), hold: hold.clone(), gate: gate.clone(), log: log.clone() }, slot, hold, gate, log)
+    }
+
+    async fn spawn_local(w: &mut World, k: u64, fail: bool, flavour: &str) -> &'static str {
+        let (la, slot, hold, gate, log) = new_la(fail);
+        let sup = w.recs.get(&SUP).map(|r| r.cell.clone());
+        let classify = |e: &ractor::SpawnErr| match e {
+            ractor::SpawnErr::StartupFailed(_) => "fail",
+            _ => "err",
+        };
+        let ans = match (flavour, sup) {
+            ("instant", _) => match ractor::ActorRuntime::<LA>::spawn_instant(None, la, ()) {
+                Err(e) => classify(&e),
+                Ok((_, h)) => match h.await {
+                    Ok(Ok(_)) => "ok",
+                    Ok(Err(e)) => classify(&e),
+                    Err(_) => "err",
+                },
+            },
+            ("linked", Some(sup)) => match Actor::spawn_linked(None, la, (), sup).await {
+                Ok(_) => "ok",
+                Err(e) => classify(&e),
+            },
+            _ => match Actor::spawn(None, la, ()).await {
+                Ok(_) => "ok",
+                Err(e) => classify(&e),
+            },
+        };
+        quiesce().await;
+        quiesce().await;
+        let cell = slot.lock().unwrap().clone();
+        if let Some(cell) = cell {
+            w.recs.insert(k, Rec { cell, remote: false, hold, gate, log });
+        }
+        ans
+    }
+
+    async fn exec(w: &mut World, log: &mut Log, st: &mut Stats, line: &str) {
+        let t: Vec<&str> = line.split_whitespace().collect();
+        let rec_of = |w: &World, k: &str| k.parse::<u64>().ok().and_then(|k| w.recs.get(&k).cloned());
+        let ans: String = match t.as_slice() {
+            ["case", ..] => {
+                for r in w.recs.values() {
+                    r.hold.store(false, Ordering::SeqCst);
+                    r.gate.notify_one();
+                    r.cell.kill();
+                }
+                quiesce().await;
+                quiesce().await;
+                // stale listener entries (monitor() on an actor that had already exited) are never
+                // removed by ractor itself
+                for id in pid_registry::verif_pid_listeners() {
+                    pid_registry::demonitor(id);
+                }
+                *w = World::default();
+                let _ = spawn_local(w, SUP, false, "plain").await;
+                st.bump("cases");
+                "ok".into()
+            }
+            ["spawn", k, how, ..] => match k.parse::<u64>() {
+                Ok(k) if !w.recs.contains_key(&k) => {
+                    let flavour = t.get(3).copied().unwrap_or("plain");
+                    let ans = spawn_local(w, k, *how == "fail", flavour).await;
+                    st.bump(&format!("spawn_{ans}"));
+                    st.bump(&format!("flavour_{flavour}"));
+                    ans.into()
+                }
+                _ => "bad".into(),
+            },
+            ["spawnremote", k] => match (k.parse::<u64>(), w.recs.get(&SUP).map(|r| r.cell.clone())) {
+                (Ok(k), Some(sup)) if !w.recs.contains_key(&k) => {
+                    let (la, _slot, hold, gate, elog) = new_la(false);
+                    let id = ActorId::Remote { node_id: 7, pid: 1000 + k };
+                    let r = ractor::ActorRuntime::spawn_linked_remote(None, la, id, (), sup).await;
+                    quiesce().await;
+                    match r {
+                        Ok((a, _)) => {
+                            st.bump("spawnremote");
+                            w.recs.insert(k, Rec { cell: a.get_cell(), remote: true, hold, gate, log: elog });
+                            "ok".into()
+                        }
+                        Err(_) => "err".into(),
+                    }
+                }
+                _ => "bad".into(),
+            },
+            ["exit", k, how] => match rec_of(w, k) {
+                Some(r) => {
+                    st.bump(&format!("exit_{how}_phase{}", phase(&r.cell)));
+                    match *how {
+                        "stop" => r.cell.stop(None),
+                        "drain" => {
+                            let _ = r.cell.drain();
+                        }
+                        _ => r.cell.kill(),
+                    }
+                    if r.cell.get_status() >= ActorStatus::Stopping {
+                        r.hold.store(false, Ordering::SeqCst);
+                        r.gate.notify_one();
+                    }
+                    quiesce().await;
+                    quiesce().await;
+                    "ok".into()
+                }
+                None => "noactor".into(),
+            },
+            ["exitbegin", k] => match rec_of(w, k) {
+                Some(r) => {
+                    if r.cell.get_status() < ActorStatus::Stopping {
+                        r.hold.store(true, Ordering::SeqCst);
+                    }
+                    r.cell.stop(None);
+                    quiesce().await;
+                    quiesce().await;
+                    st.bump("exitbegin");
+                    "ok".into()
+                }
+                None => "noactor".into(),
+            },
+            ["exitend", k] => match rec_of(w, k) {
+                Some(r) => {
+                    r.hold.store(false, Ordering::SeqCst);
+                    r.gate.notify_one();
+                    quiesce().await;
+                    quiesce().await;
+                    st.bump("exitend");
+                    "ok".into()
+                }
+                None => "noactor".into(),
+            },
+            ["monitor", k] => match rec_of(w, k) {
+                Some(r) => {
+                    st.bump(&format!("monitor_{}_phase{}", if r.remote { "remote" } else { "local" }, phase(&r.cell)));
+                    pid_registry::monitor(r.cell.clone());
+                    quiesce().await;
+                    "ok".into()
+                }
+                None => "noactor".into(),
+            },
+            ["demonitor", k] => match rec_of(w, k) {
+                Some(r) => {
+                    st.bump("demonitor");
+                    pid_registry::demonitor(r.cell.get_id());
+                    quiesce().await;
+                    "ok".into()
+                }
+                None => "noactor".into(),
+            },
+            ["getall"] => {
+                st.bump("getall");
+                let mut pids: Vec<u64> = registry::get_all_pids().iter().map(|c| w.k_of_id(c.get_id())).collect();
+                pids.sort();
+                format!("pids {}", hutil::show_u64s(&pids))
+            }
+            ["whereis", k] => match rec_of(w, k) {
+                Some(r) => match registry::where_is_pid(r.cell.get_id()) {
+                    Some(c) if c.get_id() == r.cell.get_id() => {
+                        st.bump("whereis_found");
+                        "found".into()
+                    }
+                    Some(_) => "foreign".into(),
+                    None => {
+                        st.bump("whereis_none");
+                        "none".into()
+                    }
+                },
+                None => "none".into(),
+            },
+            _ => "bad-op".into(),
+        };
+        log.rec(line, format!("{ans} | {}", w.view()));
+    }
+
+    async fn gen_case(w: &mut World, log: &mut Log, st: &mut Stats, rng: &mut Rng, len: u64) {
+        exec(w, log, st, "case").await;
+        let mut next: u64 = 0;
+        for _ in 0..len {
+            let by_phase = |w: &World, p: u64| -> Vec<u64> {
+                w.recs.iter().filter(|(k, r)| **k != SUP && phase(&r.cell) == p).map(|(k, _)| *k).collect()
+            };
+            let live = by_phase(w, 0);
+            let held = by_phase(w, 1);
+            let all: Vec<u64> = w.recs.keys().cloned().filter(|k| *k != SUP).collect();
+            let mons: Vec<u64> = pid_registry::verif_pid_listeners().into_iter().map(|id| w.k_of_id(id)).collect();
+            let c = rng.below(100);
+            let line = if c < 16 || all.is_empty() || (live.is_empty() && c < 70) {
+                next += 1;
+                format!("spawn {} ok {}", next - 1, rng.pick(&["plain", "plain", "instant", "linked"]))
+            } else if c < 22 {
+                next += 1;
+                format!("spawn {} fail {}", next - 1, rng.pick(&["plain", "instant", "linked"]))
+            } else if c < 30 {
+                next += 1;
+                format!("spawnremote {}", next - 1)
+            } else if c < 50 {
+                // mostly live actors, sometimes any (held in post_stop, dead: a stale entry)
+                if !live.is_empty() && rng.chance(4, 5) {
+                    format!("monitor {}", rng.pick(&live))
+                } else {
+                    format!("monitor {}", rng.pick(&all))
+                }
+            } else if c < 58 {
+                if !mons.is_empty() && rng.chance(3, 4) {
+                    format!("demonitor {}", rng.pick(&mons))
+                } else {
+                    format!("demonitor {}", rng.pick(&all))
+                }
+            } else if c < 74 && !live.is_empty() {
+                // prefer exiting monitors now and then: demonitor-before-unregister
+                let k = if !mons.is_empty() && rng.chance(1, 3) { *rng.pick(&mons) } else { *rng.pick(&live) };
+                if k == SUP || k == 999 {
+                    format!("exit {} kill", rng.pick(&live))
+                } else {
+                    format!("exit {k} {}", rng.pick(&["stop", "kill", "drain"]))
+                }
+            } else if c < 80 && !live.is_empty() {
+                format!("exitbegin {}", rng.pick(&live))
+            } else if c < 88 && !held.is_empty() {
+                if rng.chance(1, 2) {
+                    format!("exitend {}", rng.pick(&held))
+                } else {
+                    format!("exit {} kill", rng.pick(&held))
+                }
+            } else if c < 92 {
+                "getall".to_string()
+            } else {
+                format!("whereis {}", rng.pick(&all))
+            };
+            exec(w, log, st, &line).await;
+        }
+    }
+
+    async fn replay_file(w: &mut World, log: &mut Log, st: &mut Stats, path: &str) {
+        let text = std::fs::read_to_string(path).unwrap_or_default();
+        let mut started = false;
+        for line in text.lines() {
+            let line = line.trim();
+            if line.is_empty() || line.starts_with('#') {
+                continue;
+            }
+            st.bump("replayed_ops");
+            if line.starts_with("case") {
+                started = true;
+            }
+            if !started {
+                exec(w, log, st, "case").await;
+                started = true;
+            }
+            exec(w, log, st, line).await;
+        }
+    }
+
+    pub fn main(args: Args) {
+        let seed = args.u64("seed", 1);
+        let cases = args.u64("cases", 100);
+        let out = args.str("out", "/tmp/c10-pid");
+        let len = args.u64("len", 30);
+        let mut rng = Rng::new(seed);
+        let mut log = Log::create(std::path::Path::new(&out)).unwrap();
+        let mut st = Stats::default();
+        let rt = tokio::runtime::Builder::new_current_thread().enable_all().start_paused(true).build().unwrap();
+        let replay = args.str("replay-ops", "");
+        let only_replay = args.u64("only-replay", 0) == 1;
+        rt.block_on(async {
+            let mut w = World::default();
+            for f in replay.split(',').filter(|f| !f.is_empty()) {
+                replay_file(&mut w, &mut log, &mut st, f).await;
+            }
+            if !only_replay {
+                for _ in 0..cases {
+                    gen_case(&mut w, &mut log, &mut st, &mut rng, len).await;
+                }
+            }
+            exec(&mut w, &mut log, &mut st, "case").await;
+        });
+        st.add("lines", log.lines);
+        st.write_json(&std::path::Path::new(&out).join("stats.json"));
+        log.finish();
+    }
 }
